@@ -27,4 +27,60 @@ TEXT = {
         level='Exploration: every code pair (divisor != 0) of every pair of formats with n_word<=4 (5 thorough) for /, //, % under three roundings, raw and repr, against exact Fractions (exact-when-representable, <1 LSB otherwise, exact floor and modulo, identity (x//y)*y+x%y==x through the library); Hypothesis random pairs with result word <=53 biased to extreme and negative inexact quotients.',
         note=_BASE + ' Operand pairs whose aligned intermediate needs >=63 bits are a listed known finding (int64 raw kernels), classified from the formats alone.',
         technique='exhaustive pair enumeration + Hypothesis vs exact Fraction quotient/floor/modulo (differential + algebraic identity)'),
+    'C02': dict(
+        level='Exploration over programs: a Hypothesis rule-based state machine generates random programs of ~40 public operations (13 operation families) over a pool of objects and the well-formedness invariant (codes in range and integral, n_int, upper/lower/precision, dtype spelling, status keys) is evaluated on the result of every step and on every live object; a second generated check drives saturation with floats of any finite magnitude and python integers up to 2^1000.',
+        note=_BASE + ' The invariant is a predicate over public attributes only; steps whose documented result word is < 1 are skipped and counted.',
+        technique='stateful (rule-based) property-based testing with an invariant after every step + Hypothesis saturation inputs vs exact bounds'),
+    'C04': dict(
+        level='Exploration over histories: a rule-based state machine interleaves writes (5 routes, scalar/array/indexed/sliced, values built at the range ends), Fxp-sourced writes, mode changes, reset, resize, arithmetic, dispatched functions and copies; a 3-boolean sticky model per object is compared with status after every step and a recording Callback is compared per write; every boundary input of every n_word<=6 format is enumerated for the iff-conditions, stickiness and reset.',
+        note=_BASE + ' Callback counts are asserted for explicit writes only; propagation is asserted one-directionally and only for the routes the statement names.',
+        technique='stateful model-based testing (sticky-flag reference model, recording callback) + exhaustive boundary enumeration'),
+    'C06': dict(
+        level='Exploration: dyadic scalars and 1-d/2-d arrays built around +-2^j, 2^j-1, -2^j+1 with each subset of {n_word,n_frac,n_int} given near the exact requirement; inferred format compared with an independent upward minimal-format search, values with the reference quantizer; capped (>64 bit) doubles checked against the stated contract.',
+        note=_BASE + ' Overflowing values in 53..64-bit words are outside C01/C02 and only the inferred format is asserted there.',
+        technique='Hypothesis boundary-constructed inputs vs independent minimal-format search (reference model)'),
+    'C10': dict(
+        level='Exploration: nine conversion routes x independent source/destination modes; every code of every source format with n_word<=4 (6 thorough) into 14-24 destination formats, Hypothesis to 52 bits with 0/1/2-d shapes, sources built from raw codes, floats and ints, chains of up to 6 conversions; all routes must equal the reference quantization of the exact source value, preserve shape and leave the source unchanged.',
+        note=_BASE,
+        technique='exhaustive + Hypothesis differential testing of nine routes against the reference quantizer (all-routes-agree oracle)'),
+    'C11': dict(
+        level='Exploration of a bijection: every code of every format with n_word<=8 (all n_frac) is rendered (bin, bin with point, prefixes, hex, base 2/8/10/16) and compared with images built by Python format(), then both the library rendering and the model rendering are parsed back by five routes in value and raw mode; boundary/random codes to 256 bits; scalars, 1-d and 2-d arrays.',
+        note=_BASE + ' Binary text is fed back with its 0b prefix to constructor/call/set_val (a bare digit string is a decimal literal) and bare to from_bin.',
+        technique='exhaustive enumeration + Hypothesis; independent string model and round-trip oracle'),
+    'C12': dict(
+        level='Complete enumeration of (signed, n_word 1..256, n_frac -8..n_word+8, complex for n_word<=52) under both notation defaults: canonical spelling, get_dtype in both notations, reconstruction by constructor and resize from fxp, Q/UQ and S/U spellings; Hypothesis random spellings (case flips, explicit +, omitted fraction).',
+        note=_BASE,
+        technique='exhaustive enumeration of the format space with a render/parse round-trip oracle + grammar-based Hypothesis spellings'),
+    'C13': dict(
+        level='Exploration: all code pairs for n_word<=6 x 4 signedness combinations (x as array against each scalar operand, scalar-scalar for small words) and every integer mask in [-2^w, 2^w) on both sides; boundary/random codes for 16..128-bit words incl. arrays; oracle is Python integer bit arithmetic on the two\'s-complement images; algebraic laws (double invert, De Morgan, ~x == -x-LSB) evaluated through the library; mismatched word lengths must raise.',
+        note=_BASE,
+        technique='exhaustive pair enumeration + Hypothesis vs Python-int two\'s-complement oracle and algebraic laws'),
+    'C14': dict(
+        level='Exploration: every code of every format with n_word<=6 x every count 0..n_word+3 x 3 shifting x 2 overflow modes x 2 directions as scalars and as whole-format arrays (array-wide sizing); Hypothesis to 32 bits with 2-d arrays; exact Fraction value in expand mode, Python floor shift / representable-or-clamped-or-wrapped in trunc/keep, operand untouched.',
+        note=_BASE + ' For an unrepresentable x<<n in trunc/keep either the clamp or the wrap image is accepted (statement latitude).',
+        technique='exhaustive enumeration + Hypothesis vs exact Fraction / Python shift oracle'),
+    'C15': dict(
+        level='Exploration: 13 functions x numpy-function and method routes x axis None/each axis over shapes to 3x3 / length 8, elements all-lowest / all-highest / alternating / random, dot and matmul with independent second format; the oracle is the same numpy function over an object array of Fractions.',
+        note=_BASE + ' numpy only iterates the Fraction arrays. cumprod on formats with n_frac<0 or n_frac>n_word is a listed known finding.',
+        technique='Hypothesis-generated arrays; differential oracle = numpy over exact Fraction object arrays'),
+    'C16': dict(
+        level='Exploration: conversions for every code of every format with n_word<=8 (n_frac -1..n_word+1) created by three routes; comparisons for all code pairs of all format pairs with n_word<=3 and Hypothesis pairs to 24 bits with codes adjacent across grids, numbers on either side, arrays.',
+        note=_BASE + ' A number on the left must be a plain python number (ndarray / numpy scalar on the left goes through numpy ufunc dispatch, outside the statement).',
+        technique='exhaustive + Hypothesis adjacent-value generation vs exact Fraction comparison / floor oracle'),
+    'C17': dict(
+        level='Exploration: dyadic scales (incl. negative) and biases with the unscaled target on the quarter-LSB grid; every float intermediate is proved exact in Fractions so equality is exact; code, read-back, limits, precision, flags and size inference compared with the affine model around the reference quantizer; four store routes, scalar and array.',
+        note=_BASE,
+        technique='Hypothesis boundary-constructed inputs with exactness-by-construction vs affine reference model'),
+    'C18': dict(
+        level='The stated grid of 10 word lengths x 5 fraction lengths x signedness x overflow is enumerated completely with boundary / modulus / 2^63 / 2^64 / alternating-bit codes through four integer routes, raw bin/hex strings, lists and object arrays (homogeneous and mixed magnitude) and bitwise operators; Hypothesis adds random widths 64..256 and codes of up to 4x the word length; extended_prec indicator for n_word 1..70.',
+        note=_BASE + ' Codes must be held as python int (a float is a failure even if numerically equal).',
+        technique='grid enumeration + Hypothesis vs python-int clamp/wrap oracle and string model'),
+    'C19': dict(
+        level='Exploration of the 64-bit transition zone: operand words 2..70 weighted at 26..33, 52, 53, 60..65, 70, any n_frac, every signedness mix, codes at/near the extremes and around 2^53/2^62/2^63; cases are classified from the inputs by operand storage kinds and aligned-intermediate width so that every class is populated; storing python integers up to 2^1000 by four routes with exact flags.',
+        note=_BASE,
+        technique='Hypothesis class-directed generation vs exact python-int arithmetic / reference quantizer'),
+    'C20': dict(
+        level='Exploration over histories: a rule-based state machine derives objects by 30 routes and then mutates one (value, indexed write, config attribute, flag-raising write, reset, callback append, direct status write) and compares full snapshots of all other objects; identity / shared-memory checks after each derivation; write-through of chained indexing incl. 64+ bit words; containers of numbers and bin/hex strings deep-compared after four construction routes; every validated Config option x invalid values x 4 setting routes enumerated.',
+        note=_BASE + ' copy(), flatten(), T, fxp_like are documented shallow copies and excluded.',
+        technique='stateful property-based testing with snapshot-comparison invariant + Hypothesis containers + exhaustive config-validation enumeration'),
 }
